@@ -3,8 +3,25 @@
 // (crash-contained execution in forked children, see vh::ForkedRunner).
 #include "vh_alloc.h"
 #define VH_WITH_ALLOC 1
-#include "vh_script.h"
+#include <string>
 #include "bitserializer/msgpack_archive.h"
+
+// Friend projection of the private cursor of CMsgPackReadObjectScope (BITSERIALIZER_VERIF hook): mStartPos, mSize, mIndex,
+// whether mCurrentKey is set, and the position of the reader - validated against spec/MsgPackScope.tla after every public call.
+struct BitSerializerVerifAccess
+{
+	template <class TReader>
+	static std::string State(const BitSerializer::MsgPack::Detail::CMsgPackReadObjectScope<TReader>& s)
+	{
+		return "\"s\":" + std::to_string(s.mStartPos) + ",\"n\":" + std::to_string(s.mSize) + ",\"i\":" + std::to_string(s.mIndex) +
+			",\"ck\":" + (s.mCurrentKey ? "true" : "false") + ",\"p\":" + std::to_string(s.mMsgPackReader->GetPosition());
+	}
+};
+namespace vh {
+	template <class TReader>
+	std::string ScopeStateJson(const BitSerializer::MsgPack::Detail::CMsgPackReadObjectScope<TReader>& s) { return BitSerializerVerifAccess::State(s); }
+}
+#include "vh_script.h"
 
 int main(int argc, char** argv)
 {
